@@ -605,23 +605,39 @@ Definition spec_of_rid (s : ospec) (rid : nat) : option hspec :=
 
 Definition is_thread (w : who) : bool := match w with WThread _ => true | _ => false end.
 
-(* events published one after another by the same goroutine reach an Async+Sequential handler in publish order *)
-Fixpoint order_pairs_ok (s : ospec) (es : list (nat * nat)) : bool :=
+(* An Async+Sequential handler processes events in the order in which they were dispatched to it (which, for events
+   published one after another by one goroutine, is the order in which they were published; a publish made from inside a
+   synchronous handler of another publish of the same goroutine is dispatched - legitimately - before the rest of the
+   outer publish).  The dispatch order is read off the model run that follows the same log (ghost list [tasks]); the
+   order of entries is the observed one. *)
+Fixpoint task_pos (tk : list (nat * nat * actor)) (p rid : nat) (k : nat) : option nat :=
+  match tk with
+  | [] => None
+  | t :: r => if Nat.eqb (fst (fst t)) p && Nat.eqb (snd (fst t)) rid then Some k else task_pos r p rid (S k)
+  end.
+Fixpoint order_pairs_ok (s : ospec) (tk : list (nat * nat * actor)) (es : list (nat * nat)) : bool :=
   match es with
   | [] => true
   | (p, rid) :: r =>
     forallb (fun e => let '(q, rid') := e in
       if Nat.eqb rid rid' then
-        match spec_of_rid s rid, assoc_get (o_pubs s) p, assoc_get (o_pubs s) q with
-        | Some sp, Some rp, Some rq =>
-            if h_async sp && h_seq sp && who_eqb (op_owner rp) (op_owner rq) && is_thread (op_owner rp)
-            then Nat.ltb p q else true
-        | _, _, _ => true
+        match spec_of_rid s rid with
+        | Some sp =>
+            if h_async sp && h_seq sp
+            then match task_pos tk p rid 0, task_pos tk q rid 0 with
+                 | Some a, Some b => Nat.ltb a b
+                 | _, _ => false
+                 end
+            else true
+        | None => true
         end
-      else true) r && order_pairs_ok s r
+      else true) r && order_pairs_ok s tk r
   end.
 Definition seq_order_ok (i : binput) (o : bobs) : bool :=
-  order_pairs_ok (walk_obs i o) (enters_in_order (steps_of i o)).
+  match model_run i with
+  | Some r => order_pairs_ok (walk_obs i o) (tasks (rs_state r)) (enters_in_order (steps_of i o))
+  | None => true    (* the log cannot be followed on the model at all: reported as a disagreement *)
+  end.
 
 (* the root program thread a publish descends from *)
 Fixpoint root_of (s : ospec) (fuel : nat) (w : who) : who :=
